@@ -25,7 +25,7 @@ package raft
 //@ func (*storage).getEntryTerm
 //@   requires s.log != nil
 //@   maypanic OpError
-//@   ensures result1 == nil ==> result0 == s.gterm[index]
+//@   ensures [C04+C09.entry-term] result1 == nil ==> result0 == s.gterm[index]
 //@   ensures s.log.gprev < index && index <= s.lastLogIndex ==> result1 == nil
 
 // io.CopyN (T-std): moves bytes between a reader and a writer; no raft state involved
@@ -92,10 +92,10 @@ package raft
 //@   ensures [C10.recover-prev] result1 == nil && result0.snaps.index != 0 ==> result0.log.gprev <= result0.snaps.index
 // C12/C19: after a restart the membership is the newest configuration entry of the log suffix, else the
 // one in the snapshot label; the committed one is the entry before it, else the label's
-//@   ensures [C12+C19.restart-latest-from-log] result1 == nil && result0.configs.Latest.Index > result0.snaps.index ==> result0.configs.Latest.Index <= result0.lastLogIndex && result0.gtyp[result0.configs.Latest.Index] == entryConfig && NoCfgIn(result0, result0.configs.Latest.Index, result0.lastLogIndex)
-//@   ensures [C12+C19.restart-latest-from-label] result1 == nil && NoCfgIn(result0, result0.snaps.index, result0.lastLogIndex) ==> result0.configs.Latest == meta.config && result0.configs.Committed == meta.config
-//@   ensures [C12+C19.restart-committed-from-log] result1 == nil && result0.configs.Committed.Index > result0.snaps.index && result0.configs.Latest.Index > result0.snaps.index ==> result0.configs.Committed.Index < result0.configs.Latest.Index && result0.gtyp[result0.configs.Committed.Index] == entryConfig && NoCfgIn(result0, result0.configs.Committed.Index, result0.configs.Latest.Index - 1)
-//@   ensures [C12+C19.restart-committed-from-label] result1 == nil && result0.configs.Latest.Index > result0.snaps.index && NoCfgIn(result0, result0.snaps.index, result0.configs.Latest.Index - 1) ==> result0.configs.Committed == meta.config
+//@   ensures [C12+C19+C08.restart-latest-from-log] result1 == nil && result0.configs.Latest.Index > result0.snaps.index ==> result0.configs.Latest.Index <= result0.lastLogIndex && result0.gtyp[result0.configs.Latest.Index] == entryConfig && NoCfgIn(result0, result0.configs.Latest.Index, result0.lastLogIndex)
+//@   ensures [C12+C19+C08.restart-latest-from-label] result1 == nil && NoCfgIn(result0, result0.snaps.index, result0.lastLogIndex) ==> result0.configs.Latest == meta.config && result0.configs.Committed == meta.config
+//@   ensures [C12+C19+C08.restart-committed-from-log] result1 == nil && result0.configs.Committed.Index > result0.snaps.index && result0.configs.Latest.Index > result0.snaps.index ==> result0.configs.Committed.Index < result0.configs.Latest.Index && result0.gtyp[result0.configs.Committed.Index] == entryConfig && NoCfgIn(result0, result0.configs.Committed.Index, result0.configs.Latest.Index - 1)
+//@   ensures [C12+C19+C08.restart-committed-from-label] result1 == nil && result0.configs.Latest.Index > result0.snaps.index && NoCfgIn(result0, result0.snaps.index, result0.configs.Latest.Index - 1) ==> result0.configs.Committed == meta.config
 //@   loop 1 invariant err == nil && i >= s.snaps.index
 //@   loop 1 invariant need == 2 ==> NoCfgIn(s, i, s.lastLogIndex)
 //@   loop 1 invariant need == 1 ==> s.configs.Latest.Index > i && s.configs.Latest.Index <= s.lastLogIndex && s.gtyp[s.configs.Latest.Index] == entryConfig && NoCfgIn(s, s.configs.Latest.Index, s.lastLogIndex) && NoCfgIn(s, i, s.configs.Latest.Index - 1)
